@@ -180,7 +180,7 @@ Lemma logged_handle_ph_loop fuel : forall backfilled s p s' res,
   handle_ph_loop fuel backfilled s p = Ok (s', res) -> logged s s'.
 Proof.
   induction fuel as [|f IH]; intros backfilled s p s' res; cbn [handle_ph_loop];
-    destruct (ph_check s p) as [status proposer prev_hash prev_vs].
+    destruct (ph_check s p) as [status proposer prev_hash prev_vs view_vs].
   all: assert (Hsame : forall r0, Ok (s, r0) = Ok (s', res) -> logged s s')
          by (intros r0 E; inversion E; subst; apply logged_refl).
   all: assert (Hacc : bind (add_ph s p) (fun s' => Ok (s', HandleProposedHeaderAccepted)) = Ok (s', res) -> logged s s')
@@ -196,6 +196,7 @@ Proof.
       cbn [fst]. intros E. eapply logged_trans; [eapply logged_handle_votes; [right; reflexivity|exact Hv]|eapply IH; exact E]. }
   all: destruct (negb (hd_ok (ph_hdr p))); [apply Hsame|].
   all: destruct (negb (vs_ok (hd_vals (ph_hdr p)) && vs_ok (hd_next (ph_hdr p)))); [apply Hsame|].
+  all: destruct (negb (valset_equal (hd_vals (ph_hdr p)) view_vs)); [apply Hsame|].
   all: destruct proposer as [key|]; [|apply Hsame].
   all: destruct (negb (verify_prop _ _ _ _)); [apply Hsame|].
   all: destruct (negb (hd_height (ph_hdr p) =? k_init_h s) && negb (bytes_eqb (hd_prev (ph_hdr p)) prev_hash)); [apply Hsame|].
@@ -217,8 +218,7 @@ Lemma logged_replay_insert s hd r s1 : MirrorAuth.replay_insert s hd r = Ok s1 -
 Proof.
   unfold MirrorAuth.replay_insert.
   destruct (existsb _ (v_phs _)); [intros E; inversion E; subst; apply logged_refl|].
-  destruct (existsb _ (st_rounds s)); [discriminate|].
-  intros E; inversion E; subst. eapply logged_one; reflexivity.
+  destruct (existsb _ (st_rounds s)); intros E; inversion E; subst; eapply logged_one; reflexivity.
 Qed.
 
 Lemma logged_handle_replay s0 hd cp s' res : handle_replay s0 hd cp = Ok (s', res) -> logged s0 s'.
